@@ -33,6 +33,26 @@ Definition comp_beq (a b : comp) : bool :=
   | _, _ => false
   end.
 
+(** names and qualifiers: the implementation reports a node as its name and its qualifiers joined by the
+    unit separator (31); the source writes them joined by dots.  Inside a quoted header a dot is part of the name. *)
+Definition dots (s : ustring) : ustring := map (fun c => if c =? 46 then 31 else c) s.
+Fixpoint canon_arg (a : arg) : arg :=
+  match a with
+  | AVar s => AVar (dots s) | AHdr s => AHdr (dots s) | ARef s => ARef (dots s)
+  | AFun f l => AFun (dots f) ((fix go (l : list arg) : list arg := match l with [] => [] | x :: r => canon_arg x :: go r end) l)
+  | AEq l r => AEq (canon_arg l) (canon_arg r)
+  | other => other
+  end.
+Definition canon_action (a : action) : action :=
+  match a with ActFun f l => ActFun (dots f) (map canon_arg l) | ActAssign v r => ActAssign (dots v) (canon_arg r) end.
+Definition canon_comp (c : comp) : comp :=
+  match c with
+  | CLeft a w => CLeft (canon_arg a) (option_map canon_action w)
+  | CEq l r w => CEq (canon_arg l) (canon_arg r) (option_map canon_action w)
+  | CAssign v r => CAssign (dots v) (canon_arg r)
+  end.
+Definition canon (t : option (list comp)) : option (list comp) := option_map (map canon_comp) t.
+
 Record c17case := mkC17 {
   s_ast : list comp;                       (* the tree the text was assembled from *)
   s_texts : list ustring;                  (* the match part in several layouts *)
@@ -42,6 +62,6 @@ Record c17case := mkC17 {
 Definition oc_beq := opt_beq (list_beq comp_beq).
 
 (** model parser == real parser on every layout *)
-Definition c17_agree (c : c17case) : bool := list_beq oc_beq (map parse_text (s_texts c)) (s_real c).
+Definition c17_agree (c : c17case) : bool := list_beq oc_beq (map (fun t => canon (parse_text t)) (s_texts c)) (s_real c).
 (** the property: every layout gives exactly the tree that was written *)
-Definition c17_spec (c : c17case) : bool := forallb (fun r => oc_beq r (Some (s_ast c))) (s_real c).
+Definition c17_spec (c : c17case) : bool := forallb (fun r => oc_beq r (canon (Some (s_ast c)))) (s_real c).
